@@ -13,7 +13,7 @@ MODES = ["constant", "grid-constant", "nearest", "reflect", "grid-mirror", "mirr
 INT_DTYPES = ["int8", "int16", "int32", "int64", "uint8", "uint16", "uint32", "uint64"]
 SRC_DTYPES = ["float64", "float64", "float64", "float32", "int16", "int16", "uint8", "uint8", "int8", "int32",
               "int64", "uint16", "uint32", "uint64", "bool"]
-LAYOUTS = ["C", "C", "C", "F", "strided", "neg", "proxy", "readonly"]
+LAYOUTS = ["C", "C", "C", "F", "strided", "neg", "proxy", "readonly", "memmap"]
 CS_MODES = {"zero": 0, "nearest": 1, "reflect": 2}
 
 
@@ -206,6 +206,13 @@ def lay_out(arr, layout):
         return a
     if layout == "proxy":
         return ArrayProxy(arr.copy())
+    if layout == "memmap":
+        import tempfile
+        if arr.size == 0:
+            return arr.copy()
+        m = np.memmap(tempfile.TemporaryFile(), dtype=arr.dtype, mode="w+", shape=arr.shape)
+        m[...] = arr
+        return m
     return np.ascontiguousarray(arr)
 
 
